@@ -101,6 +101,52 @@ def setParam (ps : List PInfo) (isC : Bool) (s : Ctx) (k : Nat) (v : Int) : Exce
 
 def getParam (s : Ctx) (k : Nat) : Option Int := s.vals[k]?
 
+/-! ### struct-level setters: ZSTD_CCtx_setCParams / ZSTD_CCtx_setFParams / ZSTD_CCtx_setParams -/
+
+/-- the seven compression parameters in the order ZSTD_CCtx_setCParams stores them, and the three frame parameters of
+ZSTD_CCtx_setFParams (public parameter IDs) -/
+def cparamIds : List Nat := [101, 103, 102, 104, 105, 106, 107]
+def fparamIds : List Nat := [200, 201, 202]
+
+def indexOf (ps : List PInfo) (id : Nat) : Option Nat := ps.findIdx? (·.id == id)
+
+/-- ZSTD_checkCParams on one field: strictly inside the advertised bounds (0 is NOT "default" here) -/
+def strictlyInBounds (ps : List PInfo) (id : Nat) (v : Int) : Bool :=
+  match indexOf ps id with
+  | none => false
+  | some k => match ps[k]? with
+    | none => false
+    | some p => decide (p.lo ≤ v) && decide (v ≤ p.hi)
+
+/-- consecutive single-parameter sets; stops at the first refusal (earlier sets stay) -/
+def setSeq (ps : List PInfo) (s : Ctx) : List (Nat × Int) → Except Err Ctx
+  | [] => .ok s
+  | (id, v) :: rest =>
+    match indexOf ps id with
+    | none => .error .unsupported
+    | some k => match setParam ps true s k v with
+      | .error e => .error e
+      | .ok s' => setSeq ps s' rest
+
+def checkCParamsStruct (ps : List PInfo) (cp : List Int) : Bool := (cparamIds.zip cp).all (fun (id, v) => strictlyInBounds ps id v)
+
+/-- ZSTD_CCtx_setCParams: "only update if all parameters are valid" -/
+def setCParams (ps : List PInfo) (s : Ctx) (cp : List Int) : Except Err Ctx :=
+  if !checkCParamsStruct ps cp then .error .outOfBound else setSeq ps s (cparamIds.zip cp)
+
+/-- ZSTD_CCtx_setFParams (contentSizeFlag != 0, checksumFlag != 0, dictIDFlag = !noDictIDFlag) -/
+def setFParams (ps : List PInfo) (s : Ctx) (fp : List Int) : Except Err Ctx :=
+  match fp with
+  | [cs, ck, nd] => setSeq ps s [(200, if cs ≠ 0 then 1 else 0), (201, if ck ≠ 0 then 1 else 0), (202, if nd = 0 then 1 else 0)]
+  | _ => .error .unsupported
+
+/-- ZSTD_CCtx_setParams: "first check cParams, because we want to update all or none" -/
+def setParamsAll (ps : List PInfo) (s : Ctx) (cp fp : List Int) : Except Err Ctx :=
+  if !checkCParamsStruct ps cp then .error .outOfBound
+  else match setFParams ps s fp with
+    | .error e => .error e
+    | .ok s1 => setSeq ps s1 (cparamIds.zip cp)
+
 def startFrame (s : Ctx) : Ctx := { s with started := true }
 def endFrame (s : Ctx) : Ctx := { s with started := false }
 
